@@ -211,6 +211,37 @@ def xml_filter_tables():
     return tested, removed, (n_wrapped, len(arms)), sorted(set(direct_recv)), ranges
 
 
+def signal_handler_table():
+    """signal.rs (unix `mod imp`): which signals are registered and which event each becomes."""
+    src = strip_comments(read("nextest-runner/src/signal.rs"))
+    m = re.search(r"mod imp \{\s*use super::\*;\s*use std::io;\s*use tokio::signal::unix::.*?\n\}\n", src, re.S)
+    if not m: raise RuntimeError("signal.rs: unix mod imp not found")
+    imp = m.group(0)
+    ext = re.search(r"map\.extend\(\[(.*?)\]\);", imp, re.S)
+    if not ext: raise RuntimeError("signal.rs: map.extend([...]) not found")
+    kinds = {"SignalKind::interrupt()": "SIGINT", "SignalKind::hangup()": "SIGHUP", "SignalKind::terminate()": "SIGTERM", "SignalKind::quit()": "SIGQUIT",
+             "SignalKind::user_defined1()": "SIGUSR1", "SignalKind::user_defined2()": "SIGUSR2"}
+    for fn, raw in re.findall(r"fn (\w+)\(\) -> SignalKind \{\s*SignalKind::from_raw\(libc::(SIG\w+)\)\s*\}", imp):
+        kinds[fn + "()"] = raw
+    reg = {}
+    entries = re.findall(r"\(SignalId::(\w+), signal_stream\((.*?)\)\?\)", ext.group(1))
+    if len(entries) != len([x for x in ext.group(1).split("signal_stream(")]) - 1: raise RuntimeError("signal.rs: unrecognised registration entry")
+    for sid, kind in entries:
+        if kind not in kinds: raise RuntimeError(f"signal.rs: unrecognised signal kind {kind}")
+        reg[sid] = kinds[kind]
+    rv = re.search(r"async fn recv\(&mut self\) -> Option<SignalEvent> \{(.*?)\n        \}", imp, re.S)
+    if not rv: raise RuntimeError("signal.rs: recv not found")
+    body = re.sub(r"\s+", " ", rv.group(1))
+    ev = dict((a, f"{b}/{c}") for a, b, c in re.findall(r"SignalId::(\w+) => SignalEvent::(\w+)\(\w+::(\w+)\)", body))
+    q = re.search(r"SignalId::Quit => \{ if self\.sigquit_as_info \{ SignalEvent::Info\(SignalInfoEvent::Info\) \} else \{ SignalEvent::(\w+)\(\w+::(\w+)\) \} \}", body)
+    if q: ev["Quit"] = f"{q.group(1)}/{q.group(2)}"
+    rows = []
+    for sid, sig in reg.items():
+        if sid not in ev: raise RuntimeError(f"signal.rs: no event for registered signal {sid}")
+        rows.append((sig, ev[sid]))
+    return rows
+
+
 def run(tables=None):
     codes = exit_codes()
     ee = expected_error_codes()
@@ -221,6 +252,7 @@ def run(tables=None):
     esc = escape_table()
     shut, timeout_t, jc, (n_group, n_any) = signal_tables()
     xt, xr, (xw, xa), xdirect, xranges = xml_filter_tables()
+    sigh = signal_handler_table()
     def code_of(outcome):
         return 0 if outcome == "0" else int(codes[ee[outcome]])
     lines = [
@@ -257,6 +289,9 @@ def run(tables=None):
         "",
         "/-- `libc::kill` call sites in unix.rs: (addressed to the process group `-pid`, all) -/",
         f"def killSites : Nat × Nat := ({n_group}, {n_any})",
+        "",
+        "/-- signal.rs (unix): every registered signal and the event `recv` turns it into (the debug-only SIGQUIT-as-info switch off) -/",
+        "def signalHandlerTable : List (String × String) := [" + ", ".join(f'("{a}", "{b}")' for a, b in sigh) + "]",
         "",
         "/-- junit.rs `xml_string`: the code points it looks for, and the ones it removes -/",
         f"def junitNoncharsTested : List Nat := [{', '.join(map(str, xt))}]",
